@@ -154,8 +154,13 @@ class Workspace:
         return r.returncode, msgs, r.stderr, res
 
     def lib_facts(self, target, variant="dev"):
-        """Facts of the injectorpp library for `target` (cached per workspace)."""
+        """Facts of the injectorpp library for `target` (cached per workspace). A target spelled `<triple>@release` is the
+        same triple compiled the way a release profile compiles it (debug assertions and overflow checks off): code under
+        `debug_assert!`/`cfg!(debug_assertions)` is absent from its MIR."""
         from .facts import Facts
+        label = target
+        if "@" in target:
+            target, variant = target.split("@", 1)
         key = (target, variant)
         if key in self.facts:
             return self.facts[key]
@@ -168,6 +173,8 @@ class Workspace:
         if len(res["injectorpp"]) != 1:
             raise ExtractError("expected exactly one fact file for injectorpp/%s, got %d" % (target, len(res["injectorpp"])))
         f = Facts.load(res["injectorpp"][0])
+        if variant != "dev":
+            f.target = label if "@" in label else "%s@%s" % (target, variant)
         self.facts[key] = f
         return f
 
